@@ -92,7 +92,7 @@ def compute_jde (y m : Int) (d : Num) : Num :=
   -- if jde < 2299160.5: jde -= b
   if plt jde 2299160.5 then jde - b else jde
 
-/-- `Epoch.get_date()` without kwargs (Epoch.py:1327-1349). `.error .other` stands for the
+/-- `Epoch.get_date()` without kwargs (Epoch.py:1327-1349). `.error .valueError` is the "Invalid JDE value" ValueError (fc8fd00; before that an
     `UnboundLocalError` Python would raise if `e` were outside 4..15. -/
 def get_date (jde : Num) : PyRes (Int × Int × Num) :=
   let jd := jde + 0.5
@@ -112,8 +112,8 @@ def get_date (jde : Num) : PyRes (Int × Int × Num) :=
     let month := if e < 14 then e - 1 else e - 13
     if month > 2 then .ok (c - 4716, month, day)
     else if month = 1 ∨ month = 2 then .ok (c - 4715, month, day)
-    else .error .other
-  else .error .other
+    else .error .valueError
+  else .error .valueError
 
 /-- `Epoch(y, m, d)` for an integer day and a numeric month: `_check_values` then `_compute_jde`
     (`day += hours/24 + minutes/1440 + sec/86400` with the defaults 0.0). -/
